@@ -2509,11 +2509,13 @@ func AssertConstructor(v Value) (Constructor, bool) {
 }
 
 func (r *Runtime) runWrapped(f func()) (err error) {
+	outermost := len(r.vm.callStack) == 0
 	defer func() {
 		if x := recover(); x != nil {
 			if ex := asUncatchableException(x); ex != nil {
 				err = ex
-				if len(r.vm.callStack) == 0 {
+				if outermost {
+					r.vm.callStack = r.vm.callStack[:0]
 					r.leaveAbrupt()
 				}
 			} else {
@@ -2525,8 +2527,12 @@ func (r *Runtime) runWrapped(f func()) (err error) {
 	if ex != nil {
 		err = ex
 	}
-	if len(r.vm.callStack) == 0 {
+	if outermost {
+		// The jobs run inside an (empty) outermost activation, as they do in RunProgram: a nested run
+		// started from a job must not take itself for the outermost one and drain the queue.
+		r.vm.callStack = append(r.vm.callStack, context{})
 		r.leave()
+		r.vm.callStack = r.vm.callStack[:0]
 	} else {
 		r.vm.clearStack()
 	}
